@@ -84,8 +84,26 @@ def run(ctx):
                 cases.append(Case(keygen_line(H, ps, seed, bytes(a2)), "keygen/levelword"))
         for cut in (1, 2, 3, 4, 5, len(aux) - 1, len(aux) - HASHES[H]):
             cases.append(Case(sign_line(H, skb, b"m", "accept", aux[:cut]), "sign/auxtruncated"))
+        # non-authentic content combined with a missing / partial MAC ("error or a *correct* result")
+        n = HASHES[H]
+        for keep in (0, 1, n - 1):
+            a3 = bytearray(aux[:len(aux) - n + keep])
+            a3[4 + rng.randrange(len(aux) - n - 4)] ^= 0x20
+            cases.append(Case(sign_line(H, skb, b"m", "accept", bytes(a3)), "sign/aux-corrupt-mac-cut", {"ref": sign_line(H, skb, b"m", "accept")}))
+            cases.append(Case(keygen_line(H, ps, seed, bytes(a3)), "keygen/aux-corrupt-mac-cut", {"ref": keygen_line(H, ps, seed)}))
+            a4 = bytearray(aux[:len(aux) - n + keep])
+            a4[0:4] = u32(0x80000000 | 0x08)          # another level word, nodes behind it, no MAC
+            cases.append(Case(keygen_line(H, ps, seed, bytes(a4[:4 + (n << 3) + keep])), "keygen/aux-forged-levelword-mac-cut", {"ref": keygen_line(H, ps, seed)}))
+    refs = {}
+    ref_lines = sorted({c.meta["ref"] for c in cases if c.meta.get("ref")})
+    for c, a, b in ctx.both([Case(l, "aux-reference") for l in ref_lines], None):
+        refs[c.line] = a
     for c, a, b in ctx.both(cases, proj_err_trace):
         oracle(ctx, c, a)
+        if c.meta.get("ref") and a.startswith("ok"):
+            fa, fr = fields(a), fields(refs[c.meta["ref"]])
+            if fa.get("sig") != fr.get("sig") or fa.get("vk") != fr.get("vk") or fa.get("cb") != fr.get("cb"):
+                ctx.fail("an operation given a malformed auxiliary buffer returned neither an error nor the correct result", [c.line[:300]], a[:120], refs[c.meta["ref"]][:120])
 
 
 def proj_err_trace(c, a):
